@@ -62,12 +62,24 @@ func unionOpt(u int, vals []any) participle.Option {
 // Options returns the participle options that configure the grammar (lexer, elision, lookahead,
 // case-insensitivity, unions) for the given production types.
 func (g *Grammar) Options(types []reflect.Type) []participle.Option {
-	opts := []participle.Option{participle.Lexer(g.Prof().Def), participle.UseLookahead(g.Lookahead), participle.ParseTypeWith(ParsePI)}
-	if len(g.Elide) > 0 {
-		opts = append(opts, participle.Elide(g.Elide...))
+	// the order of options and the way a list is spread over several options of one kind are the caller's choice:
+	// derive both from the grammar so that a case replays the same way
+	variant := (len(g.Prods) + len(g.Unions) + len(g.Elide)) % 3
+	var opts []participle.Option
+	if variant != 1 {
+		opts = append(opts, participle.Lexer(g.Prof().Def))
 	}
+	opts = append(opts, participle.UseLookahead(g.Lookahead), participle.ParseTypeWith(ParsePI))
 	if len(g.CI) > 0 {
 		opts = append(opts, participle.CaseInsensitive(g.CI...))
+	}
+	if len(g.Elide) > 1 && variant == 2 {
+		opts = append(opts, participle.Elide(g.Elide[:1]...), participle.Elide(g.Elide[1:]...))
+	} else if len(g.Elide) > 0 {
+		opts = append(opts, participle.Elide(g.Elide...))
+	}
+	if variant == 1 {
+		opts = append(opts, participle.Lexer(g.Prof().Def)) // the lexer named last
 	}
 	for u, un := range g.Unions {
 		var vals []any
